@@ -49,3 +49,21 @@ Theorem C19_driver_never_doomed :
                  d_phase (fst (drun cf st more)) = DEnd.
 Proof. exact driver_never_doomed. Qed.
 Print Assumptions C19_driver_never_doomed.
+
+(* ---- cancellation in the driver model, stated on the model itself: from the moment the token is set (Ctrl-C, a failure
+   under fail-fast, a refused connection) no step opens a session or sends a statement, and every file reported afterwards
+   gets the result its state at that moment dictates: Skipped if it had not looked at the token yet, Cancelled if it was
+   running, its own result if it was already shutting down or finished. *)
+From SLT Require Import DriverTrans DriverCancel.
+
+Theorem C19_driver_quiet_after_cancel :
+  forall cf st st' tr, reach cf st st' tr -> d_token st = true -> Forall quiet tr.
+Proof. exact driver_quiet_after_cancel. Qed.
+Print Assumptions C19_driver_quiet_after_cancel.
+
+Theorem C19_driver_fates_after_cancel :
+  forall cf st st' tr, reach cf st st' tr -> d_token st = true ->
+    exists new, d_reported st' = d_reported st ++ new /\
+      forall d r, In (d, r) new -> exists i f t0, nth_error (d_tasks st) i = Some (f, t0) /\ f_db f = d /\ fate t0 r.
+Proof. exact driver_fates_after_cancel. Qed.
+Print Assumptions C19_driver_fates_after_cancel.
